@@ -69,6 +69,7 @@ type Violation struct {
 	Assert  string
 	Known   string
 	W       *Witness
+	Alts    []*Witness // further counterexamples of the same assertion from other paths (tried when W does not reproduce natively)
 	Count   int
 }
 
@@ -102,6 +103,11 @@ func (r *harnessResult) addViolation(h, id string, w *Witness, known string) {
 	key := h + "|" + id + "|" + known
 	if v, ok := r.Violations[key]; ok {
 		v.Count++
+		// keep a spread of alternatives: the 2nd, 4th, 8th ... failing path
+		if c := v.Count; c&(c-1) == 0 && len(v.Alts) < 10 {
+			w.Known = known
+			v.Alts = append(v.Alts, w)
+		}
 		return
 	}
 	w.Known = known
@@ -121,6 +127,14 @@ func (r *harnessResult) merge(o *harnessResult) {
 	for k, v := range o.Violations {
 		if e, ok := r.Violations[k]; ok {
 			e.Count += v.Count
+			if len(e.Alts) < 10 {
+				e.Alts = append(e.Alts, v.W)
+				for _, a := range v.Alts {
+					if len(e.Alts) < 10 {
+						e.Alts = append(e.Alts, a)
+					}
+				}
+			}
 		} else {
 			r.Violations[k] = v
 		}
